@@ -41,6 +41,7 @@ def check(rep, model, tier):
     getattr_load(rep, model)
     group(rep, model)
     group_recompute(rep, model)
+    settings_shared(rep, model, det)
     effself(rep, model, summ, det)
     from . import c06
     c06.default_keys(rep, model)
@@ -432,6 +433,109 @@ def lookup(t, i):
     if t[0] in ('list', 'tuple') and -len(t[1]) <= i < len(t[1]):
         return t[1][i]
     return None
+
+
+def settings_shared(rep, model, det):
+    """a threshold edit on the group reaches the members: BycycleGroup.recompute_edges delegates to each member's own stored thresholds, so the members must
+    hold the group's thresholds object itself (or the group must hand its thresholds down explicitly)"""
+    import ast
+    rep.rule('SETTINGS-SHARED', 'when BycycleGroup.recompute_edges lowers each member\'s own stored thresholds, those are the group\'s current thresholds: BycycleGroup.fit constructs '
+                                'every member from self.thresholds itself and BycycleBase.__init__ stores the dictionary it is given (not a copy), so a threshold edit on the '
+                                'group after a fit is what the next recompute_edges uses. Not required when the group passes its own thresholds down explicitly')
+    g = model.funcs.get(f'{GRP}.recompute_edges')
+    fit_ = model.funcs.get(f'{GRP}.fit')
+    init = model.lookup_method(BY, '__init__')
+    if g is None or fit_ is None or init is None:
+        rep.unresolved('SETTINGS-SHARED', 'methods', '-', 'BycycleGroup.recompute_edges / fit or Bycycle.__init__ not found')
+        return
+    gsite = f'{g.path}:{g.node.lineno} BycycleGroup.recompute_edges'
+    # whose thresholds does the group recomputation lower?  members get their own atoms
+    ctx = new_ctx(model, (model.find('recompute_edges').qual,))
+    grp_obj = E.make_object(ctx, model, GRP, SETTINGS)
+    mth = ('dict', tuple((k, ('param', 'member_' + v[1])) for k, v in TH[1]))
+    members = []
+    for i in range(2):
+        o = E.make_object(ctx, model, BY, dict(SETTINGS, thresholds=mth))
+        E.attrs(ctx, o).update(df_features=('atom', f'FITTED_{i}', 'table'), sig=('atom', f'SIG_{i}', 'arr'), fs=('param', 'fs'), f_range=('param', 'f_range'))
+        members.append(o)
+    E.attrs(ctx, grp_obj).update(models=('list', tuple(members)), df_features=('list', tuple(E.attrs(ctx, o)['df_features'] for o in members)),
+                                 sigs=('list', tuple(E.attrs(ctx, o)['sig'] for o in members)), n_dims=C(2), fs=('param', 'fs'), f_range=('param', 'f_range'))
+    ctx.trace.clear()
+    E.run(model, g.qual, {'self': grp_obj, 'reduction': ('atom', 'r', 'num')}, ctx=ctx)
+    rc = model.find('recompute_edges')
+    evs = [e for e in E.calls_to(ctx, 'recompute_edges') if e['kind'] == 'pkgcall' and '.objs.' not in e['name']]
+    used = {x[1] for e in evs for x in T.walk(e['bound'].get(rc.params[1], NONE)) if x[0] == 'param'}
+    from_members = {u for u in used if u.startswith('member_')}
+    if not evs:
+        rep.ok('SETTINGS-SHARED', 'group recomputation', gsite, found='no functional recomputation reached: not decided here (see GROUP-RECOMPUTE)', nontrivial=False)
+        return
+    if not from_members:
+        rep.ok('SETTINGS-SHARED', 'group recomputation', gsite, found='the group lowers its own thresholds and hands them down: members need not share the dictionary')
+        return
+    rep.ok('SETTINGS-SHARED', 'group recomputation', gsite, found=f'each member lowers its own stored thresholds ({sorted(from_members)}): they must be the group\'s object')
+    # (a) fit constructs members from self.thresholds itself
+    fsite = f'{fit_.path}:{fit_.node.lineno} BycycleGroup.fit'
+    iparams = [p for p in init.params if p != 'self']
+    ctor_calls = [n for n in ast.walk(fit_.node) if isinstance(n, ast.Call) and isinstance(n.func, ast.Name) and model.resolve_class(fit_, n.func.id) == BY] \
+        if hasattr(model, 'resolve_class') else [n for n in ast.walk(fit_.node) if isinstance(n, ast.Call) and isinstance(n.func, ast.Name) and n.func.id == BY.rsplit('.', 1)[1]]
+    assigns = {}
+    for n in ast.walk(fit_.node):
+        if isinstance(n, ast.Assign) and len(n.targets) == 1 and isinstance(n.targets[0], ast.Name):
+            assigns.setdefault(n.targets[0].id, []).append(n.value)
+
+    def is_self_thresholds(v):
+        if isinstance(v, ast.Attribute) and isinstance(v.value, ast.Name) and v.value.id == 'self' and v.attr == 'thresholds':
+            return True
+        return isinstance(v, ast.Name) and v.id in assigns and all(is_self_thresholds(x) for x in assigns[v.id])
+    bad = []
+    for c in ctor_calls:
+        arg = None
+        idx = iparams.index('thresholds') if 'thresholds' in iparams else None
+        if idx is not None and idx < len(c.args):
+            arg = c.args[idx]
+        for k in c.keywords:
+            if k.arg == 'thresholds':
+                arg = k.value
+        if arg is None or not is_self_thresholds(arg):
+            bad.append(f'line {c.lineno}: thresholds={ast.unparse(arg) if arg is not None else "<default>"}')
+    if not ctor_calls:
+        rep.ok('SETTINGS-SHARED', 'fit:members constructed from self.thresholds', fsite, found='no direct Bycycle(...) construction in fit: not decided here (see INDEX-AGREE)', nontrivial=False)
+    elif bad:
+        rep.violation('SETTINGS-SHARED', 'fit:members constructed from self.thresholds', fsite, expected='Bycycle(..., self.thresholds, ...) at every construction',
+                      found='; '.join(bad) + ': the member holds a different dictionary, a later edit of the group thresholds does not reach it')
+    else:
+        rep.ok('SETTINGS-SHARED', 'fit:members constructed from self.thresholds', fsite, found=f'{len(ctor_calls)} constructions pass self.thresholds itself')
+    # (b) the constructor keeps the object it is given
+    isite = f'{init.path}:{init.node.lineno} {init.qual.rsplit(".", 2)[-2]}.__init__'
+    def held_by(fn, param, depth=0):
+        """abstract objects self.thresholds holds after fn, in terms of the constructor's own parameter; follows super().__init__(...) when fn stores nothing itself"""
+        env = det[fn.qual].env
+        if 'self.thresholds' in env:
+            return {('P', 'thresholds') if x == ('P', param) else x for x in env['self.thresholds']} if param != 'thresholds' else set(env['self.thresholds'])
+        if depth > 4 or fn.cls is None:
+            return set()
+        rebound = any(isinstance(n, ast.Name) and n.id == param and isinstance(n.ctx, ast.Store) for n in ast.walk(fn.node))
+        for c in ast.walk(fn.node):
+            if isinstance(c, ast.Call) and isinstance(c.func, ast.Attribute) and c.func.attr == '__init__' and isinstance(c.func.value, ast.Call) and \
+                    isinstance(c.func.value.func, ast.Name) and c.func.value.func.id == 'super':
+                for b in model.bases(fn.cls):
+                    up = model.lookup_method(b, '__init__')
+                    if up is None:
+                        continue
+                    ups = [p for p in up.params if p != 'self']
+                    passed = {ups[i]: a for i, a in enumerate(c.args) if i < len(ups)}
+                    passed.update({k.arg: k.value for k in c.keywords if k.arg})
+                    for up_param, a in passed.items():
+                        if isinstance(a, ast.Name) and a.id == param and not rebound:
+                            got = held_by(up, up_param, depth + 1)
+                            return {('P', 'thresholds') if x == ('P', up_param) else x for x in got}
+        return set()
+    held = held_by(init, 'thresholds')
+    if ('P', 'thresholds') in held:
+        rep.ok('SETTINGS-SHARED', '__init__:stores the given dictionary', isite, found='self.thresholds is the caller\'s dictionary on the path where one is given')
+    else:
+        rep.violation('SETTINGS-SHARED', '__init__:stores the given dictionary', isite, expected='self.thresholds is the dictionary passed in (shared with the group that constructed the member)',
+                      found=f'self.thresholds holds {sorted(map(str, held))}: a private copy; BycycleGroup.recompute_edges after a threshold edit on the group uses the thresholds of fit time')
 
 
 def group_recompute(rep, model):
